@@ -193,9 +193,11 @@ fn parse_signed_time_str(timestamp: &str) -> i64 {
     let offset_timestamp = if timestamp_is_neg { 1_usize } else { 0 };
     let dot_idx = timestamp.find('.').unwrap_or(timestamp.len());
 
+    // seconds are limited to u32 (as in the DLT storage header). Bigger values are treated as parsing error
+    // (and cannot overflow the us calculations)
     let timestamp_secs_us: i64 = timestamp[offset_timestamp..dot_idx]
-        .parse::<i64>()
-        .unwrap_or_default()
+        .parse::<u32>()
+        .unwrap_or_default() as i64
         * (US_PER_SEC as i64);
     let timestamp_fraction_us = if dot_idx < timestamp.len() {
         let timestamp_fraction_str = &timestamp[dot_idx + 1..];
